@@ -88,15 +88,15 @@ type bpFn struct {
 }
 
 type bp struct {
-	p     *Prog
-	fns   map[*ssa.Function]*bpFn
-	calls map[*ssa.Function][]ssa.CallInstruction // static call sites per repo callee
+	p         *Prog
+	fns       map[*ssa.Function]*bpFn
+	calls     map[*ssa.Function][]ssa.CallInstruction // static call sites per repo callee
 	addrTaken map[*ssa.Function]bool
-	depth int
-	stats map[string]int
-	fieldLB map[fieldKey]int64
-	retSum  map[*ssa.Function][]retFact
-	nilPost map[*ssa.Function][]nilPost
+	depth     int
+	stats     map[string]int
+	fieldLB   map[fieldKey]int64
+	retSum    map[*ssa.Function][]retFact
+	nilPost   map[*ssa.Function][]nilPost
 }
 
 func newBP(p *Prog) *bp {
